@@ -149,6 +149,44 @@ Proof.
     rewrite <- EW. apply Hw. unfold shift. lia.
 Qed.
 
+(** the class is exact: whenever repr_round_sum returns the rounding of the exact value it is outside the class *)
+Theorem rrs_short_of_rounded p m sig e low lp is_sub :
+  1 <= p -> 0 <= lp -> Z.abs low < B ^ lp ->
+  rounded_sum B p m (sig * B ^ lp + low) (e - lp) (repr_round_sum B p m sig e low lp is_sub) ->
+  rrs_short B p sig low lp is_sub = false.
+Proof.
+  intros Hp Hlp Hlow. rewrite rrs_unfold.
+  destruct (Z.eqb_spec p 0) as [|_]; [lia|].
+  unfold rrs_short, realign_l.
+  set (rp := p + b2z is_sub). pose proof (Bpos lp Hlp) as HPlp.
+  (* the same three cases, the significand / low part / digit position after re-alignment do not depend on e *)
+  assert (W : forall s e' l k, rounded_sum B p m (sig * B ^ lp + low) (e - lp) (rrs_tail B m s e' l k) ->
+              e' - (e - lp) = k -> sig * B ^ lp + low = s * B ^ k + l ->
+              negb (l =? 0) && (Z.abs (s * B ^ k + l) <? B ^ (p - 1 + k)) = false).
+  { intros s e' l k H Ek ES. unfold rrs_tail in H. destruct (Z.eqb_spec l 0) as [|Hl]; [reflexivity|].
+    cbn [negb andb]. cbv zeta in H. cbn [rounded_sum] in H. rewrite Ek in H.
+    destruct H as (_ & _ & _ & _ & _ & HL & _). apply Z.ltb_ge. rewrite <- ES. exact HL. }
+  unfold realign. set (d := dlen B sig).
+  destruct (Z.compare_spec d rp) as [Heq|Hlt|Hgt].
+  - intros H. apply (W sig e low lp H); [clear; lia | reflexivity].
+  - destruct (Z.eqb_spec low 0) as [Hz|Hnz].
+    + intros H. apply (W sig e low lp H); [clear; lia | reflexivity].
+    + set (shift := Z.min lp (rp - d)).
+      pose proof (dlen_nonneg B B_ge_2 sig) as Hd0. fold d in Hd0.
+      assert (Hsh : 0 <= shift <= lp) by (unfold shift; lia).
+      pose proof (split_digits_spec B B_ge_2 low (lp - shift) ltac:(lia)) as SP.
+      destruct (split_digits B low (lp - shift)) as [pad low'] eqn:Esp.
+      destruct SP as (E1 & _). unfold shl_digits. intros H.
+      apply (W _ _ _ _ H); [clear; lia|].
+      rewrite E1. replace lp with (shift + (lp - shift)) at 1 by lia. rewrite Z.pow_add_r by lia. ring.
+  - set (shift := d - rp). assert (Hsh : 1 <= shift) by (unfold shift; lia).
+    pose proof (split_digits_spec B B_ge_2 sig shift ltac:(lia)) as SP.
+    destruct (split_digits B sig shift) as [hi lo] eqn:Esp.
+    destruct SP as (E1 & _). unfold shl_digits. intros H.
+    apply (W _ _ _ _ H); [clear; lia|].
+    rewrite E1. rewrite (Z.add_comm lp shift), Z.pow_add_r by lia. ring.
+Qed.
+
 (** * the far-apart branch, any length of the small operand T: |T| <= B^(g-1) replaces |T| < B^p *)
 Theorem rrs_far_long p m sig e sigma T g is_sub :
   1 <= p -> sig <> 0 -> (sigma = 1 \/ sigma = -1) -> 0 < sigma * T ->
@@ -234,14 +272,14 @@ Proof.
     assert (HlTn : lo * B ^ g + T <> 0).
     { rewrite (Z.add_comm (lo * B ^ g) T). apply add_mul_nz; assumption. }
     apply (tail_far B B_ge_2 p m hi (e + sh) (sigma + lo * B ^ 2) (2 + sh) (sig * B ^ g + T) (e - g) (g + sh) (lo * B ^ g + T));
-      try assumption; try lia.
+      [clear - Hsh; lia | exact Hls | exact Hlsn | clear - Hsh Hg0; lia | exact HlT | exact HlTn | | clear; lia | | ].
     + rewrite E1. rewrite Z.pow_add_r by lia. ring.
     + pose proof (spec_round_standin m sig (B ^ sh) (B ^ 2) sigma (B ^ g) T) as SS.
       replace (hi * B ^ (2 + sh) + (sigma + lo * B ^ 2)) with (sig * B ^ 2 + sigma).
       2:{ rewrite E1. rewrite (Z.add_comm 2 sh), Z.pow_add_r by lia. ring. }
       rewrite (Z.add_comm 2 sh), (Z.add_comm g sh), !Z.pow_add_r by lia.
-      apply SS; lia.
-    + apply Hwin. unfold sh. lia.
+      apply SS; [exact HPsh | clear - HB2; lia | exact HPg | exact HsT | clear - Hsga HB2; lia | exact HT1'].
+    + apply Hwin. unfold sh. clear. lia.
 Qed.
 
 (** * the alignment branches, any operand lengths *)
@@ -323,6 +361,64 @@ Proof.
     + assert (0 <= ediff) by lia. pose proof (Bpos ediff ltac:(lia)) as HPe. set (P := B ^ ediff) in *.
       apply rrs_short_false; try lia; try discriminate.
       all: try (rewrite Z.pow_0_r; cbn; lia).
+Qed.
+
+(** operands that fit the precision are never in the class: the theorems of this file contain the pinned ones *)
+Theorem add_core_short_fits p L R ediff is_sub :
+  1 <= p -> L <> 0 -> R <> 0 -> 1 <= ediff -> dlen B L <= p -> dlen B R <= p ->
+  (is_sub = false -> 0 < L * R) -> (is_sub = true -> L * R < 0) ->
+  add_core_short B p L R ediff is_sub = false.
+Proof.
+  intros Hp HL HR He HdL HdR Hsame Hopp. unfold add_core_short.
+  destruct (dlen_spec B B_ge_2 L HL) as [[LL LU] Ld1]. destruct (dlen_spec B B_ge_2 R HR) as [[RL RU] Rd1].
+  set (ld := dlen B L) in *. set (rd := dlen B R) in *.
+  assert (HRp : Z.abs R < B ^ p) by (pose proof (pow_le_mono B B_ge_2 rd p ltac:(lia)); lia).
+  pose proof (Bpos (p - 1) ltac:(lia)) as HPp.
+  destruct (Z.geb_spec ld p) as [G|G].
+  - assert (ld = p) by lia.
+    pose proof (split_digits_spec B B_ge_2 R ediff ltac:(lia)) as SP.
+    destruct (split_digits B R ediff) as [hi lo]. destruct SP as (E1 & Hlo & Hslo & Hshi).
+    destruct (hi_small B B_ge_2 p R ediff hi lo Hp He HR E1 Hslo Hshi HRp) as [Hhi Hlo2].
+    assert (HLp : B ^ (p - 1) <= Z.abs L) by (replace (p - 1) with (ld - 1) by lia; exact LL).
+    apply (rrs_short_of_rounded p MZero (L + hi) 0 lo ediff is_sub); try assumption; try lia.
+    apply (rrs_exact B B_ge_2); try assumption; try lia.
+    intros Hs. specialize (Hsame Hs).
+    destruct (Z.lt_trichotomy R 0) as [Hn|[Hz|Hpos]]; [|contradiction|].
+    + assert (L < 0) by nia. assert (lo <= 0) by nia. assert (hi <= 0) by nia. nia.
+    + assert (0 < L) by nia. assert (0 <= lo) by nia. assert (0 <= hi) by nia. nia.
+  - destruct (Z.gtb_spec (ediff + ld) p) as [G2|G2].
+    + set (lshift := p - ld). set (rshift := ediff - lshift).
+      assert (Hls : 1 <= lshift) by (unfold lshift; lia). assert (Hrs : 1 <= rshift) by (unfold rshift, lshift; lia).
+      pose proof (split_digits_spec B B_ge_2 R rshift ltac:(lia)) as SP.
+      destruct (split_digits B R rshift) as [hi lo]. destruct SP as (E1 & Hlo & Hslo & Hshi).
+      destruct (hi_small B B_ge_2 p R rshift hi lo Hp Hrs HR E1 Hslo Hshi HRp) as [Hhi Hlo2].
+      pose proof (Bpos lshift ltac:(lia)) as HPl.
+      assert (HLp : B ^ (p - 1) <= Z.abs (L * B ^ lshift)).
+      { replace (p - 1) with ((ld - 1) + lshift) by (unfold lshift; lia).
+        rewrite Z.pow_add_r by lia. rewrite Z.abs_mul, (Z.abs_eq (B ^ lshift)) by lia.
+        apply Z.mul_le_mono_nonneg_r; [lia | exact LL]. }
+      apply (rrs_short_of_rounded p MZero (L * B ^ lshift + hi) 0 lo rshift is_sub); try assumption; try lia.
+      apply (rrs_exact B B_ge_2); try assumption; try lia.
+      intros Hs. specialize (Hsame Hs).
+      destruct (Z.lt_trichotomy R 0) as [Hn|[Hz|Hpos]]; [|contradiction|].
+      * assert (L < 0) by nia. assert (lo <= 0) by nia. assert (hi <= 0) by nia. nia.
+      * assert (0 < L) by nia. assert (0 <= lo) by nia. assert (0 <= hi) by nia. nia.
+    + apply (rrs_short_of_rounded p MZero (L * B ^ ediff + R) 0 0 0 is_sub); try lia; try (rewrite Z.pow_0_r; cbn; lia).
+      apply (rrs_exact B B_ge_2); try lia; try (rewrite Z.pow_0_r; cbn; lia).
+Qed.
+
+Theorem add_short_class_fits p s1 e1 s2 e2 sg :
+  1 <= p -> dlen B s1 <= p -> dlen B s2 <= p -> add_short_class B p s1 e1 s2 e2 sg = false.
+Proof.
+  intros Hp Hd1 Hd2. unfold add_short_class.
+  destruct (Z.eqb_spec p 0) as [|_]; [reflexivity|]. destruct (Z.eqb_spec s1 0) as [|H1]; [reflexivity|].
+  destruct (Z.eqb_spec s2 0) as [|H2]; [reflexivity|]. cbn [orb].
+  destruct (is_sub_spec B B_ge_2 s1 s2 sg H1 H2) as [Ha Hb].
+  assert (H2' : sgnz sg * s2 <> 0) by (destruct sg; cbn [sgnz]; lia).
+  destruct (Z.compare_spec e1 e2) as [Heq|Hlt|Hgt]; [reflexivity| |].
+  - apply add_core_short_fits; try assumption; try lia; try (rewrite dlen_sgnz; exact Hd2);
+      intros Hs; first [specialize (Ha Hs) | specialize (Hb Hs)]; lia.
+  - apply add_core_short_fits; try assumption; try lia; try (rewrite dlen_sgnz; exact Hd2).
 Qed.
 
 (** * Context::add / Context::sub (as repaired), any operand lengths *)
